@@ -33,6 +33,9 @@ structure VE where
   id : Nat
   val : Nat
   info : Nat
+  /-- ghost: identity of the key object (`Arc<K>`) the map stores this entry under: the `id`
+  of the value entry whose insert created the map slot (an update keeps the slot's key) -/
+  slot : Nat := 0
   deriving Repr, Inhabited, DecidableEq
 
 structure AoNode where
@@ -40,12 +43,15 @@ structure AoNode where
   key : Nat
   hash : UInt64
   info : Nat
+  /-- ghost: identity of the key object the node holds (that of the write op that was admitted) -/
+  kobj : Nat := 0
   deriving Repr, Inhabited
 
 structure WoNode where
   id : Nat
   key : Nat
   info : Nat
+  kobj : Nat := 0
   deriving Repr, Inhabited
 
 inductive WOp where
@@ -221,13 +227,13 @@ def handleAdmit (p : Params) (s : SState) (key : Nat) (hash : UInt64) (ve : VE) 
   let s := addCounters s 1 weight
   let s := if p.q.d8 then s else withInfo s ve.info (fun i => { i with weight := weight })
   let aoId := s.nextId
-  let node : AoNode := { id := aoId, key := key, hash := hash, info := ve.info }
+  let node : AoNode := { id := aoId, key := key, hash := hash, info := ve.info, kobj := ve.slot }
   let s := { s with prob := s.prob ++ [node], nextId := s.nextId + 1 }
   let s := withInfo s ve.info (fun i => { i with ao := some aoId })
   let s :=
     if p.ttl.isSome then
       let woId := s.nextId
-      let wnode : WoNode := { id := woId, key := key, info := ve.info }
+      let wnode : WoNode := { id := woId, key := key, info := ve.info, kobj := ve.slot }
       let s := { s with wo := s.wo ++ [wnode], nextId := s.nextId + 1 }
       withInfo s ve.info (fun i => { i with wo := some woId })
     else s
@@ -516,12 +522,12 @@ def insert (p : Params) (s : SState) (k v : Nat) : SState :=
   | some old =>
     let oldW := (getInfo s old.info).weight
     let s := refreshInfo p s old.info ts weight
-    let ve : VE := { id := s.nextId, val := v, info := old.info }
+    let ve : VE := { id := s.nextId, val := v, info := old.info, slot := old.slot }
     let s := { s with nextId := s.nextId + 1, map := AL.put s.map k ve }
     scheduleWriteOp p 3 s (.upsert k hash ve oldW weight)
   | none =>
     let infoId := s.nextId
-    let ve : VE := { id := s.nextId + 1, val := v, info := infoId }
+    let ve : VE := { id := s.nextId + 1, val := v, info := infoId, slot := s.nextId + 1 }
     let info : Info :=
       { key := k, admitted := false, dirty := true, la := ts, lm := ts, weight := weight }
     let s := { s with nextId := s.nextId + 2, infos := AL.put s.infos infoId info,
@@ -585,7 +591,18 @@ def snapshot (p : Params) (s : SState) : Snap :=
     skLen := s.sk.table.size, skCrc := s.sk.crc,
     freqs := sortBy (·.1) (s.map.map (fun kv => (kv.1, s.sk.frequency (p.hash kv.1)))),
     rq := s.readQ.length, wq := s.writeQ.length, va := s.va,
-    hkRunning := s.running, hkAfter := s.syncAfter, now := s.now }
+    hkRunning := s.running, hkAfter := s.syncAfter, now := s.now,
+    liveK := countDistinct (s.map.map (·.2.slot) ++ s.prob.map (·.kobj) ++ s.wo.map (·.kobj) ++
+      s.writeQ.map (fun op => match op with
+        | .upsert _ _ ve _ _ => ve.id
+        | .remove _ ve => ve.slot)),
+    liveV := countDistinct (s.map.map (·.2.id) ++
+      s.writeQ.map (fun op => match op with
+        | .upsert _ _ ve _ _ => ve.id
+        | .remove _ ve => ve.id) ++
+      s.readQ.filterMap (fun op => match op with
+        | .hit _ ve _ => some ve.id
+        | .miss _ => none)) }
 
 def step (p : Params) (s : SState) (op : Op) : SState × Obs :=
   if s.fault.isSome then (s, .badOp)
